@@ -234,6 +234,7 @@ type simCore struct {
 	violated   bool
 	quietAfter int64 // no fate randomness after this time (heal)
 	snmpBase   snmpLoss
+	budgetExhausted bool // the simulation was cut short by the event budget: no verdict on completion
 
 	onEvent func(s *simCore) // extra per-event monitor of the property under test
 
@@ -246,7 +247,7 @@ type simCore struct {
 var simKCPs = map[*KCP]*coreEnd{}
 
 func newSimCore(rec *vrec, desc any, cfgA, cfgB coreCfg, appA, appB appScript, fate fateFn, clockOffset uint32, snA, snB uint32) *simCore {
-	s := &simCore{rec: rec, desc: desc, fate: fate, maxEvents: 4_000_000}
+	s := &simCore{rec: rec, desc: desc, fate: fate, maxEvents: 30_000_000}
 	s.t0 = time.Now()
 	// place the 32-bit millisecond clock: currentMs() == clockOffset at t0
 	refTime = s.t0.Add(-time.Duration(clockOffset) * time.Millisecond)
@@ -553,6 +554,7 @@ func (s *simCore) run(done func() bool) bool {
 		s.events++
 		if s.events > s.maxEvents {
 			s.rec.inconcl(fmt.Sprintf("event budget exhausted at t=%d ms (case hash %x)", s.now, hashAny(s.desc)))
+			s.budgetExhausted = true
 			return false
 		}
 		var e *coreEnd
